@@ -51,7 +51,7 @@ def EG.union (g : EG) (a b : Int) : EG :=
   { g with parents := (UF.union g.parents a.toNat b.toNat).1 }
 
 def canonArgs (g : EG) (isId : List Bool) (args : List Int) : List Int :=
-  (args.zip isId).map fun (v, b) => if b then g.find v else v
+  args.mapIdx fun i v => if isId.getD i false then g.find v else v
 
 def EG.canonRow (g : EG) (d : Decl) (r : Row) : Row :=
   { r with args := canonArgs g d.argIsId r.args, out := if d.outIsId then g.find r.out else r.out }
